@@ -89,7 +89,7 @@ def vloop():
 
 def observe(ex, scn):
     r = ex.result
-    errs = sorted(tuple(e.get("path") or ()) for e in (r.get("errors") or [])) if isinstance(r, dict) else None
+    errs = sorted(explore.path_of(e) for e in (r.get("errors") or [])) if isinstance(r, dict) else None
     return (ex.status, json.dumps(r.get("data") if isinstance(r, dict) else repr(r), sort_keys=False, default=repr), tuple(errs or ()))
 
 
